@@ -121,6 +121,60 @@ pub fn run_c01(ctx: &mut Ctx) {
             }
         }
     }
+    // Programs that are built at run time and then applied: the operator atom (and an inner quote) is produced by
+    // substr / concat / arithmetic, so it reaches the interpreter as a heap atom, a view into another atom, or a
+    // freshly computed small integer instead of an inline literal. The reference treats atoms by value.
+    {
+        let args_for = |op: u8| -> &'static str {
+            match op {
+                1 => "42",
+                2 => "((q . (q . 7)) ())",
+                3 => "((q . 1) (q . 2) (q . 3))",
+                5 | 6 | 7 => "((q . (1 . 2)))",
+                8 => "((q . 1))",
+                11 | 14 => "((q . 0x0102) (q . 0x03))",
+                12 => "((q . 0x0102030405) (q . 1) (q . 3))",
+                13 | 26 | 27 | 32 => "((q . 0x0102))",
+                36 => "((q . 160) (q . 0) (q . (q . 1)) (q . ()))",
+                _ => "((q . 5) (q . 3))",
+            }
+        };
+        let mut k = texts.len() as u64;
+        for op in (1u8..=36).filter(|o| !matches!(o, 15 | 28..=31 | 35)) {
+            let variants = [
+                format!("(q . {op})"),
+                format!("(substr (q . 0x{op:02x}00000000) () (q . 1))"),
+                format!("(substr (q . 0x00{op:02x}) (q . 1))"),
+                format!("(concat (q . ()) (q . {op}))"),
+                format!("(concat (substr (q . 0x{op:02x}ff) () (q . 1)) (q . ()))"),
+                format!("(logand (q . 0x01{op:02x}) (q . 0x00ff))"),
+                format!("(- (q . {}) (q . 1))", op as u32 + 1),
+            ];
+            for (vi, opx) in variants.iter().enumerate() {
+                let cid = DIRECTED | k;
+                k += 1;
+                if !ctx.want(cid) {
+                    continue;
+                }
+                let mut f = Forest::new();
+                let txt = format!("(a (c {opx} (q . {})) ())", args_for(op));
+                let prog = crate::sexp::parse(&mut f, &txt, &[]);
+                let env = f.nil();
+                if let Some(c) = log_c01(ctx, &f, prog, env, UNLIMITED, cid, "computed-operator") {
+                    log_c01(ctx, &f, prog, env, c, cid, "computed-operator-budget");
+                    log_c01(ctx, &f, prog, env, c.saturating_sub(1).max(1), cid, "computed-operator-budget");
+                }
+                // the same operator inside a computed quote: (a (c Q (c OP ARGS)) ()) evaluates to the literal form
+                if vi < 5 {
+                    let qx = variants[vi].replace(&format!("{op:02x}"), "01").replace(&format!("(q . {op})"), "(q . 1)");
+                    let txt = format!("(a (c {qx} (c {opx} (q . {}))) ())", args_for(op));
+                    let prog = crate::sexp::parse(&mut f, &txt, &[]);
+                    log_c01(ctx, &f, prog, env, UNLIMITED, cid, "computed-quote");
+                }
+                ctx.count("computed_operator_programs");
+            }
+        }
+    }
     let n = ctx.n(300_000, 8_000_000);
     random_cases!(ctx, n, |r, i| {
         let mut cfg = ProgCfg::classic();
